@@ -390,12 +390,10 @@ theorem sound_un_keep (op : PyUn) (txt : String) (e : Expr) (er : Rep)
         simp [hcu] at this
         exact ⟨cv, by simp only [evalC, h1, hcu], this.1, by rw [this.2, h3]⟩
 
-theorem sound_not (e : Expr) (er : Rep) (hnf : e.isFloatKind = false)
-    (he : Sound N e er) : Sound N (.un .not e) ⟨er.ty, .un "!" er.ce⟩ := by
-  have hty : er.ty.isFloating = false := by rw [he.1]; exact hnf
+theorem sound_not (e : Expr) (er : Rep)
+    (he : Sound N e er) : Sound N (.un .not e) ⟨.bool, .un "!" er.ce⟩ := by
   refine ⟨?_, ?_⟩
-  · show er.ty.isFloating = _
-    rw [hty]; simp [Expr.isFloatKind, Expr.pyKind]
+  · simp [Expr.isFloatKind, Expr.pyKind, CT.isFloating]
   · intro env hm pv hpv
     simp only [Expr.modNonneg] at hm
     simp only [evalPy] at hpv
@@ -411,7 +409,7 @@ theorem sound_not (e : Expr) (er : Rep) (hnf : e.isFloatKind = false)
       | none => simp [hcu] at this
       | some cv =>
         simp [hcu] at this
-        exact ⟨cv, by simp only [evalC, h1, hcu], this.1, by rw [this.2]; exact hty.symm⟩
+        exact ⟨cv, by simp only [evalC, h1, hcu], this.1, by rw [this.2]; rfl⟩
 
 theorem sound_cmp (op : PyCmp) (txt : String) (l r : Expr) (lr rr : Rep)
     (hc : ∀ a b : CV N, (cBin txt a b).map CV.toPy = pyCmp op a.toPy b.toPy ∧
@@ -455,17 +453,16 @@ theorem sound_bool (b : Bool) : Sound N (.bool b) ⟨.bool, .blit b⟩ := by
   exact ⟨.bool b, rfl, hpv, rfl⟩
 
 /-- The compositional theorem: by induction on the source expression. -/
-theorem translate_sound (e : Expr) : ∀ r, translate e = .ok r → e.noFloatMod = true → e.noFloatNot = true →
+theorem translate_sound (e : Expr) : ∀ r, translate e = .ok r → e.noFloatMod = true →
     Sound N e r := by
   induction e with
-  | leaf t s i => intro r h _ _; simp only [translate, Except.ok.injEq] at h; subst h; exact sound_leaf t s i
-  | int n => intro r h _ _; simp only [translate, Except.ok.injEq] at h; subst h; exact sound_int n
-  | flt s i => intro r h _ _; simp only [translate, Except.ok.injEq] at h; subst h; exact sound_flt s i
-  | bool b => intro r h _ _; simp only [translate, Except.ok.injEq] at h; subst h; exact sound_bool b
+  | leaf t s i => intro r h _; simp only [translate, Except.ok.injEq] at h; subst h; exact sound_leaf t s i
+  | int n => intro r h _; simp only [translate, Except.ok.injEq] at h; subst h; exact sound_int n
+  | flt s i => intro r h _; simp only [translate, Except.ok.injEq] at h; subst h; exact sound_flt s i
+  | bool b => intro r h _; simp only [translate, Except.ok.injEq] at h; subst h; exact sound_bool b
   | bin op l r ihl ihr =>
-    intro res h hfm hfn
+    intro res h hfm
     simp only [Expr.noFloatMod, Bool.and_eq_true] at hfm
-    simp only [Expr.noFloatNot, Bool.and_eq_true] at hfn
     simp only [translate] at h
     split at h
     · cases hl : translate l with
@@ -475,8 +472,8 @@ theorem translate_sound (e : Expr) : ∀ r, translate e = .ok r → e.noFloatMod
         | error x => simp [hl, hr] at h
         | ok rr =>
           simp only [hl, hr] at h
-          have sl := ihl lr hl hfm.1.1 hfn.1
-          have sr := ihr rr hr hfm.1.2 hfn.2
+          have sl := ihl lr hl hfm.1.1
+          have sr := ihr rr hr hfm.1.2
           cases op with
           | add => have := emitBin_add lr rr res h; exact sound_arith .add "+" l r lr rr res (Or.inl rfl) (add_sound true) ⟨this.2.2.1, this.2.2.2⟩ sl sr
           | sub => have := emitBin_sub lr rr res h; exact sound_arith .sub "-" l r lr rr res (Or.inr (Or.inl rfl)) (sub_sound true) ⟨this.2.2.1, this.2.2.2⟩ sl sr
@@ -489,32 +486,30 @@ theorem translate_sound (e : Expr) : ∀ r, translate e = .ok r → e.noFloatMod
           | _ => simp [emitBin, lookup, binaryOps, PyBin.astName] at h
     · simp at h
   | un op e ih =>
-    intro res h hfm hfn
+    intro res h hfm
     simp only [Expr.noFloatMod] at hfm
-    simp only [Expr.noFloatNot, Bool.and_eq_true] at hfn
     simp only [translate] at h
     split at h
     · cases he : translate e with
       | error x => simp [he] at h
       | ok er =>
         simp only [he] at h
-        have se := ih er he hfm hfn.1
+        have se := ih er he hfm
         cases op with
         | uadd =>
-          simp only [emitUn, lookup_uadd, Except.ok.injEq] at h; subst h
+          simp only [emitUn, lookup_uadd, Except.ok.injEq, reduceCtorEq, ↓reduceIte] at h; subst h
           exact sound_un_keep .uadd "+" e er (Or.inl rfl) uadd_sound se
         | usub =>
-          simp only [emitUn, lookup_usub, Except.ok.injEq] at h; subst h
+          simp only [emitUn, lookup_usub, Except.ok.injEq, reduceCtorEq, ↓reduceIte] at h; subst h
           exact sound_un_keep .usub "-" e er (Or.inr rfl) usub_sound se
         | not =>
-          simp only [emitUn, lookup_not, Except.ok.injEq] at h; subst h
-          exact sound_not e er (by have := hfn.2; simpa using this) se
+          simp only [emitUn, lookup_not, Except.ok.injEq, ↓reduceIte] at h; subst h
+          exact sound_not e er se
         | invert => simp [emitUn, lookup_invert] at h
     · simp at h
   | cmp op l r ihl ihr =>
-    intro res h hfm hfn
+    intro res h hfm
     simp only [Expr.noFloatMod, Bool.and_eq_true] at hfm
-    simp only [Expr.noFloatNot, Bool.and_eq_true] at hfn
     simp only [translate] at h
     cases hl : translate l with
     | error x => simp [hl] at h
@@ -523,8 +518,8 @@ theorem translate_sound (e : Expr) : ∀ r, translate e = .ok r → e.noFloatMod
       | error x => simp [hl, hr] at h
       | ok rr =>
         simp only [hl, hr] at h
-        have sl := ihl lr hl hfm.1 hfn.1
-        have sr := ihr rr hr hfm.2 hfn.2
+        have sl := ihl lr hl hfm.1
+        have sr := ihr rr hr hfm.2
         cases op with
         | lt => simp only [emitCmp, lookup_lt, Except.ok.injEq] at h; subst h; exact sound_cmp .lt "<" l r lr rr lt_sound sl sr
         | lte => simp only [emitCmp, lookup_lte, Except.ok.injEq] at h; subst h; exact sound_cmp .lte "<=" l r lr rr lte_sound sl sr
@@ -670,7 +665,7 @@ theorem translate_boolInv (e : Expr) : ∀ r, translate e = .ok r → BoolInv N 
         have ihe := ih er he
         cases op with
         | uadd =>
-          simp only [emitUn, lookup_uadd, Except.ok.injEq] at h; subst h
+          simp only [emitUn, lookup_uadd, Except.ok.injEq, reduceCtorEq, ↓reduceIte] at h; subst h
           obtain ⟨hb, hv⟩ := ihe ht
           refine ⟨by simp [Expr.boolish, hb], fun hn env cv hc hf => ?_⟩
           simp only [Expr.noNegBool, Bool.and_eq_true] at hn
@@ -683,12 +678,12 @@ theorem translate_boolInv (e : Expr) : ∀ r, translate e = .ok r → BoolInv N 
             have := hv hn.1 env c0 h0 hf0
             cases c0 <;> simp [cUn] at hc <;> subst hc <;> simp_all [CV.toI, CV.isFloating, CV.ctype, CT.isFloating]
         | usub =>
-          simp only [emitUn, lookup_usub, Except.ok.injEq] at h; subst h
+          simp only [emitUn, lookup_usub, Except.ok.injEq, reduceCtorEq, ↓reduceIte] at h; subst h
           obtain ⟨hb, _⟩ := ihe ht
           refine ⟨by simp [Expr.boolish, hb], fun hn => ?_⟩
           simp [Expr.noNegBool, hb] at hn
         | not =>
-          simp only [emitUn, lookup_not, Except.ok.injEq] at h; subst h
+          simp only [emitUn, lookup_not, Except.ok.injEq, ↓reduceIte] at h; subst h
           refine ⟨by simp [Expr.boolish], fun _ env cv hc _ => ?_⟩
           simp only [evalC] at hc
           cases h0 : evalC env er.ce with
